@@ -22,9 +22,15 @@ func spare(b []byte) []byte {
 	return out
 }
 
+// KV_NO_SCRIBBLE=1 switches the overwriting off (diagnostic only)
+var noScribble = os.Getenv("KV_NO_SCRIBBLE") != ""
+
 // scribble overwrites a caller-owned buffer (whole capacity) once the call it was handed to has returned:
 // a store that kept the slice instead of copying it shows up as a changed key or value later.
 func scribble(b []byte) {
+	if noScribble {
+		return
+	}
 	b = b[:cap(b)]
 	for i := range b {
 		b[i] = 0xee
